@@ -326,6 +326,7 @@ class DocutilsRenderer(RendererProtocol):
         :param allow_front_matter: the text is a whole file, which can start with
             front matter (that is discarded); elsewhere `---` is a thematic break
         """
+        n_duplicate_refs = len(self.md_env.get("duplicate_refs", []))
         if inline:
             tokens = self.md.parseInline(text, self.md_env)
         elif allow_front_matter:
@@ -334,6 +335,19 @@ class DocutilsRenderer(RendererProtocol):
             with self.md.reset_rules():
                 self.md.disable("front_matter", True)
                 tokens = self.md.parse(text + "\n", self.md_env)
+
+        # report duplicate reference definitions of this text now (not at the end
+        # of the render): their lines are relative to the text, and for an
+        # included file only now is the document source that file
+        duplicate_refs = self.md_env.get("duplicate_refs", [])
+        for dup_ref in duplicate_refs[n_duplicate_refs:]:
+            self.create_warning(
+                f"Duplicate reference definition: {dup_ref['label']}",
+                MystWarnings.MD_DEF_DUPE,
+                line=dup_ref["map"][0] + lineno + 1,
+                append_to=self.current_node,
+            )
+        del duplicate_refs[n_duplicate_refs:]
 
         # remove front matter, if present, e.g. from included documents
         if tokens and tokens[0].type == "front_matter":
